@@ -454,10 +454,19 @@ func (e *Exec) Run(a *Action, oracle bool) (StepObs, []Disc) {
 		}
 	}
 	if oracle && !obs.Halted {
-		discs = append(discs, SelfConsistency(e.W)...)
-		if !obs.Diverged {
-			discs = append(discs, Compare(e.W, e.M, e.Tracked)...)
-		}
+		func() {
+			// the observers read through keepers and the query router: a state that cannot be read
+			// back is a discrepancy of the implementation, not a failure of the harness
+			defer func() {
+				if p := recover(); p != nil {
+					discs = append(discs, Disc{Kind: "panic:state_read", Detail: fmt.Sprintf("reading the committed state back (keepers / query router) panics: %v", p), Sig: map[string]string{"phase": "state_read"}})
+				}
+			}()
+			discs = append(discs, SelfConsistency(e.W)...)
+			if !obs.Diverged {
+				discs = append(discs, Compare(e.W, e.M, e.Tracked)...)
+			}
+		}()
 	}
 	if e.PostProcess != nil {
 		discs = e.PostProcess(e, discs)
